@@ -200,7 +200,10 @@ def run_case(case):
         vt = vclock
         R = sa.performSpatiallyAdaptiv(lm[0], lm[1], eo, tol=tol, max_evaluations=mx, min_evaluations=mn, print_output=False,
                                        recalculate_frequently=strat.endswith("_recalc"),
-                                       evaluation_points=EP if strat.endswith("_ep") else None, **kw)
+                                       evaluation_points=EP if strat.endswith("_ep") else None, do_plot=strat.endswith("_plot"), **kw)
+    if strat.endswith("_plot"):
+        import matplotlib.pyplot as plt
+        plt.close("all")
     evs = [x for x in log if x[0] == "E"]
     pts, errs, surplus = list(R[6]), list(R[5]), list(R[7])
     fails = []
@@ -246,13 +249,16 @@ def run_case(case):
     if sa.refinements < 0 or len([x for x in log if x[0] == "R"]) != len(evs) - 1:
         fails.append(fail("refine_count", "%d refine calls for %d evaluations" % (len([x for x in log if x[0] == 'R']), len(evs)), key))
     return {"failures": fails, "canon": (strat, kind, norm, tol, mn, mx, mt, c.get("clock")), "outcome": (len(evs), tuple(pts)),
-            "nontrivial": len(evs) > 1, "evals": len(evs), "pts": pts}
+            "nontrivial": len(evs) > 1, "evals": len(evs), "pts": pts, "errs": [float(e) for e in errs],
+            "final": [float(x) for x in np.asarray(R[3], dtype=float).ravel()]}
 
 
 def main(ctx):
     q = ctx.tier == "quick"
     # *_ep: the evaluation_points option (interpolation-error diagnostics at user-supplied off-grid points after every evaluation)
-    strategies = ["dw", "dw_noreb", "es", "es_v1", "es_auto", "cell", "es_gl", "es_gl_recalc", "es_recalc", "dw_ep", "es_ep"]
+    # *_plot: do_plot=True (contour plot, refinement graph, combination scheme and sparse grid are drawn after every step: looking at
+    # the run must not change it)
+    strategies = ["dw", "dw_noreb", "es", "es_v1", "es_auto", "cell", "es_gl", "es_gl_recalc", "es_recalc", "dw_ep", "es_ep", "dw_plot", "es_plot", "cell_plot"]
     kinds = ["peak", "vec", "zero", "disc", "peak_tiny", "vec_scaled"] if q else ["peak", "vec", "zero", "disc", "c0", "vec3", "peak_tiny", "vec_scaled"]
     norms = [1, 2, "inf"]
     base = [{"config": {"strategy": s, "integrand": k, "norm": n, "tol": -1, "min_evaluations": 1, "max_evaluations": 90 if q else 150}}
@@ -264,7 +270,7 @@ def main(ctx):
     for bc, res in zip(base, results):
         ctx.absorb(bc, res, group="baseline")
         nk = res.get("pts") or []
-        if not nk:
+        if not nk or bc["config"]["strategy"].endswith("_plot"):
             continue
         c0 = bc["config"]
         tols = [-1, 0, 1e-3, 1e-1, 1e10]
@@ -284,7 +290,7 @@ def main(ctx):
     for bc, res in zip(base, results0):
         nk = res.get("pts") or []
         c0 = bc["config"]
-        if len(nk) < 3 or c0["norm"] != "inf" or c0["integrand"] not in ("peak", "vec"):
+        if len(nk) < 3 or c0["norm"] != "inf" or c0["integrand"] not in ("peak", "vec") or c0["strategy"].endswith("_plot"):
             continue
         cases.append({"config": dict(c0, tol=1e-3, max_evaluations=nk[min(3, len(nk) - 1)], max_time=1.0e9)})
         ntime += 1
@@ -313,8 +319,14 @@ def main(ctx):
         ctx.add_sample({"case": cases[i], "evaluations": results[i].get("evals"), "points": results[i].get("pts")})
     # metamorphic cross-check: scaling the integrand (and the reference) by an exact power of two must not change a single stopping
     # decision -> the baselines of "peak" and "peak_tiny" must have identical point counts
-    bykey = {(b["config"]["strategy"], b["config"]["integrand"], b["config"]["norm"]): r for b, r in zip(base, ctx.map(base, chunksize=1))}
+    bykey = {(b["config"]["strategy"], b["config"]["integrand"], b["config"]["norm"]): r for b, r in zip(base, results0)}
     for (st, kind, nm), r in bykey.items():
+        if st.endswith("_plot"):
+            other = bykey.get((st[:-5], kind, nm))
+            if other is not None and (other.get("pts") != r.get("pts") or other.get("errs") != r.get("errs") or other.get("final") != r.get("final")):
+                ctx.record_failure(fail("plotting_changes_run", "strategy %s integrand %s norm %s: point counts %r with do_plot=True, %r without; final results %r vs %r"
+                                        % (st, kind, nm, r.get("pts"), other.get("pts"), r.get("final"), other.get("final")), {"strategy": st.split("_")[0]}),
+                                   {"config": {"strategy": st, "integrand": kind, "norm": nm, "tol": -1, "min_evaluations": 1, "max_evaluations": 90 if q else 150}})
         if kind == "peak_tiny":
             other = bykey.get((st, "peak", nm))
             if other is not None and other.get("pts") != r.get("pts"):
